@@ -27,17 +27,24 @@ pub struct HashMap<K, V> {
     // ManuallyDrop: dropping the model map leaks its slots on purpose, so that the
     // (recursive) drop glue of worterbuch's tree nodes stays shallow under CBMC.
     slots: core::mem::ManuallyDrop<Box<[Option<(K, V)>; CAP]>>,
+    // key of an outstanding `VacantEntry`. It is parked here instead of travelling inside the `Entry`
+    // enum: a `String` that was moved through a tagged enum (a union for CBMC) no longer compares
+    // concretely, so lookups of a freshly inserted key would not fold (measured).
+    // (wrapped in UnsafeCell so that its niche is hidden: otherwise `Option<HashMap>` would put its tag
+    // into the capacity field of this string instead of the box pointer, which CBMC does not fold)
+    pending: core::cell::UnsafeCell<Option<K>>,
 }
+unsafe impl<K: Sync, V: Sync> Sync for HashMap<K, V> {}
 
 impl<K: Clone, V: Clone> Clone for HashMap<K, V> {
     fn clone(&self) -> Self {
-        HashMap { slots: core::mem::ManuallyDrop::new(Box::new(clone_slots(&self.slots))) }
+        HashMap { slots: core::mem::ManuallyDrop::new(Box::new(clone_slots(&self.slots))), pending: core::cell::UnsafeCell::new(None) }
     }
 }
 
 impl<K, V> Default for HashMap<K, V> {
     fn default() -> Self {
-        HashMap { slots: core::mem::ManuallyDrop::new(Box::new(empty_slots())) }
+        HashMap { slots: core::mem::ManuallyDrop::new(Box::new(empty_slots())), pending: core::cell::UnsafeCell::new(None) }
     }
 }
 
@@ -119,6 +126,7 @@ impl<K, V> Iterator for IntoIter<K, V> {
     }
 }
 
+#[repr(u8)]
 pub enum Entry<'a, K, V> {
     Occupied(OccupiedEntry<'a, K, V>),
     Vacant(VacantEntry<'a, K, V>),
@@ -129,7 +137,6 @@ pub struct OccupiedEntry<'a, K, V> {
 }
 pub struct VacantEntry<'a, K, V> {
     map: &'a mut HashMap<K, V>,
-    key: K,
 }
 impl<'a, K, V> OccupiedEntry<'a, K, V> {
     pub fn into_mut(self) -> &'a mut V {
@@ -149,7 +156,11 @@ impl<'a, K, V> VacantEntry<'a, K, V> {
         let mut i = 0;
         while i < CAP {
             if self.map.slots[i].is_none() {
-                self.map.slots[i] = Some((self.key, value));
+                let key = match self.map.pending.get_mut().take() {
+                    Some(k) => k,
+                    None => unreachable!(),
+                };
+                self.map.slots[i] = Some((key, value));
                 return match &mut self.map.slots[i] {
                     Some((_, v)) => v,
                     None => unreachable!(),
@@ -178,7 +189,7 @@ impl<K, V> HashMap<K, V> {
     }
     /// model-only constructor: build a map from explicit slots (harness pre-states)
     pub fn from_slots(slots: [Option<(K, V)>; CAP]) -> Self {
-        HashMap { slots: core::mem::ManuallyDrop::new(Box::new(slots)) }
+        HashMap { slots: core::mem::ManuallyDrop::new(Box::new(slots)), pending: core::cell::UnsafeCell::new(None) }
     }
     pub fn len(&self) -> usize {
         let mut n = 0;
@@ -288,8 +299,14 @@ impl<K: Eq, V> HashMap<K, V> {
     }
     pub fn entry(&mut self, key: K) -> Entry<'_, K, V> {
         match self.find(&key) {
-            Some(idx) => Entry::Occupied(OccupiedEntry { map: self, idx }),
-            None => Entry::Vacant(VacantEntry { map: self, key }),
+            Some(idx) => {
+                core::mem::forget(key);
+                Entry::Occupied(OccupiedEntry { map: self, idx })
+            }
+            None => {
+                *self.pending.get_mut() = Some(key);
+                Entry::Vacant(VacantEntry { map: self })
+            }
         }
     }
 }
